@@ -352,9 +352,12 @@ HandlerDecs(fr) == IF ~ParserActive(fr) THEN 0
 
 \* frames inside parse_tree_to_objgraph's try block: their handler removes the models under
 \* construction from the repositories -- which it finds through attributes of the frame's root
-CleanupPcs == {"register", "imports", "round", "resolve", "endc", "inits", "procs"}
+\* (during resolution .. processors the handler has the list of models at hand; before that it
+\* finds them through attributes of the frame's root object)
+ListPcs == {"round", "resolve", "endc", "inits", "procs"}
+RootPcs == {"register", "imports"}
 RootUnreadable(f) == LET o == Root(f) IN IsUser(o) /\ o \in store[Cls(o)] /\ instr[Cls(o)] = 0
-Cleans(fr) == fr.pc \in CleanupPcs /\ ~RootUnreadable(fr.f)
+Cleans(fr) == fr.pc \in ListPcs \/ (fr.pc \in RootPcs /\ ~RootUnreadable(fr.f))
 
 Unwind ==
   /\ phase = "run" /\ exc # "" /\ stack # <<>>
@@ -378,7 +381,7 @@ Unwind ==
           /\ store' = IF "StoreKeptOnFailure" \in Dev THEN store
                       ELSE [c \in User |-> store[c] \ mineObjs]
           /\ repo' = IF "NoCleanupOnModelProcessorFailure" \in Dev /\ fr.pc = "return" THEN repo
-                     ELSE IF fr.pc \in CleanupPcs /\ RootUnreadable(fr.f) THEN repo
+                     ELSE IF fr.pc \in RootPcs /\ RootUnreadable(fr.f) THEN repo
                      ELSE repo \ fr.mine
           /\ Emit(Ev("LoadEnd", fr.f, 0, exc))
           /\ stack' = Pop
